@@ -13,38 +13,45 @@ run there by the tie.
 -/
 namespace ScVerif.C20.FanSpeed
 
+set_option linter.unusedSectionVars false
+variable {α : Type} [DecidableEq α] (add : α → α → α)
+
+/-- exact rational addition: the instance used by the driver and by the concrete examples -/
+abbrev radd : Rat → Rat → Rat := (· + ·)
+
 /-- every request of the run satisfies `WriteOK` at the state it is applied to -/
-def OKRun (ps : List Preset) : Fan → List Request → Prop
+def OKRun (ps : List (Preset α)) : Fan α → List (Request α) → Prop
   | _, [] => True
-  | s, r :: rest => WriteOK s r ∧ OKRun ps (step ps s r) rest
+  | s, r :: rest => WriteOK add s r ∧ OKRun ps (step add ps s r) rest
 
 /-- **Consistency after every update sequence** (absolute or relative writes, any update mask, any
 preset list with named presets, rejected requests included): from a consistent state, as long as no
 write clears the preset of a fan that has one, preset, index and percentage stay mutually consistent. -/
-theorem C20_fan_consistent (ps : List Preset) (hwf : WF ps) (rs : List Request) :
-    ∀ s, Consistent ps s → OKRun ps s rs → Consistent ps (run ps s rs) := by
+theorem C20_fan_consistent (ps : List (Preset α)) (hwf : WF ps) (rs : List (Request α)) :
+    ∀ s, Consistent ps s → OKRun add ps s rs → Consistent ps (run add ps s rs) := by
   induction rs with
   | nil => intro s h _; exact h
   | cons r rest ih =>
     intro s h hok
     apply ih _ _ hok.2
     unfold step
-    cases hu : update ps s r with
-    | ok v => exact consistent_step ps s v r hwf h hok.1 hu
+    cases hu : update add ps s r with
+    | ok v => exact consistent_step add ps s v r hwf h hok.1 hu
     | invalidArgument => exact h
     | panic => exact h
 
 /-- the default configuration: DefaultPresets are well-formed and the default initial fan speed
 ("off", index 0, 0%) is consistent; a relative index step under its mask satisfies `WriteOK` -/
-example : WF [⟨"off", 0⟩, ⟨"low", 15⟩, ⟨"med", 40⟩, ⟨"high", 75⟩, ⟨"full", 100⟩] ∧
-    Consistent [⟨"off", 0⟩, ⟨"low", 15⟩, ⟨"med", 40⟩, ⟨"high", 75⟩, ⟨"full", 100⟩] ⟨0, "off", 0, 1⟩ ∧
-    WriteOK ⟨0, "off", 0, 1⟩ ⟨⟨0, "", 1, 0⟩, true, some [.index]⟩ := by
+example : WF ([⟨"off", 0⟩, ⟨"low", 15⟩, ⟨"med", 40⟩, ⟨"high", 75⟩, ⟨"full", 100⟩] : List (Preset Rat)) ∧
+    Consistent ([⟨"off", 0⟩, ⟨"low", 15⟩, ⟨"med", 40⟩, ⟨"high", 75⟩, ⟨"full", 100⟩] : List (Preset Rat)) ⟨0, "off", 0, 1⟩ ∧
+    WriteOK radd ⟨0, "off", 0, 1⟩ ⟨⟨0, "", 1, 0⟩, true, some [.index]⟩ := by
   refine ⟨⟨by simp, by simp⟩, ⟨fun _ => ⟨by decide, ⟨"off", 0⟩, by decide, rfl, rfl⟩, fun h => by simp at h⟩, by decide⟩
 
 /-- **The excluded point is real** (why `WriteOK` is needed): a mask-less write of percentage 50 on a
 fan at preset "low" leaves preset "" with index 0 — not consistent. -/
 theorem C20_fan_consistent_fails :
-    ∃ ps s r, WF ps ∧ Consistent ps s ∧ ¬ WriteOK s r ∧ ¬ Consistent ps (step ps s r) := by
+    ∃ (ps : List (Preset Rat)) (s : Fan Rat) (r : Request Rat),
+      WF ps ∧ Consistent ps s ∧ ¬ WriteOK radd s r ∧ ¬ Consistent ps (step radd ps s r) := by
   refine ⟨[⟨"off", 0⟩, ⟨"low", 15⟩], ⟨15, "low", 1, 1⟩, ⟨⟨50, "", 0, 0⟩, false, none⟩,
     ⟨by simp, by simp⟩, ⟨fun _ => ⟨by decide, ⟨"low", 15⟩, by decide, rfl, rfl⟩, fun h => by simp at h⟩,
     by decide, ?_⟩
@@ -55,12 +62,12 @@ theorem C20_fan_consistent_fails :
 
 /-- **Precedence, preset first**: when the merged write changes the preset (to a known one), the
 result is that preset with its own index and percentage, whatever index and percentage were written. -/
-theorem C20_fan_precedence_preset (ps : List Preset) (old : Fan) (r : Request) (i : Nat)
-    (h1 : old.preset ≠ (merged old r).preset)
-    (hf : findIdx (fun p => p.name == (merged old r).preset) ps = some i) :
-    ∃ p, ps[i]? = some p ∧ p.name = (merged old r).preset ∧
-      deriveValues ps old (merged old r) =
-        some { merged old r with index := i, pct := p.pct } := by
+theorem C20_fan_precedence_preset (ps : List (Preset α)) (old : Fan α) (r : Request α) (i : Nat)
+    (h1 : old.preset ≠ (merged add old r).preset)
+    (hf : findIdx (fun p => p.name == (merged add old r).preset) ps = some i) :
+    ∃ p, ps[i]? = some p ∧ p.name = (merged add old r).preset ∧
+      deriveValues ps old (merged add old r) =
+        some { merged add old r with index := i, pct := p.pct } := by
   obtain ⟨x, hx, hp⟩ := findIdx_some hf
   refine ⟨x, hx, by simpa using hp, ?_⟩
   unfold deriveValues
@@ -69,22 +76,22 @@ theorem C20_fan_precedence_preset (ps : List Preset) (old : Fan) (r : Request) (
 
 /-- **Precedence, index second, and the index is clamped**: preset unchanged and index changed ⇒ the
 index is clamped into `[0, len)`, and preset and percentage are those of the preset at that index. -/
-theorem C20_fan_index_clamped (ps : List Preset) (hne : ps ≠ []) (old : Fan) (r : Request)
-    (h1 : old.preset = (merged old r).preset) (h2 : old.index ≠ (merged old r).index) :
-    ∃ v p, deriveValues ps old (merged old r) = some v ∧
+theorem C20_fan_index_clamped (ps : List (Preset α)) (hne : ps ≠ []) (old : Fan α) (r : Request α)
+    (h1 : old.preset = (merged add old r).preset) (h2 : old.index ≠ (merged add old r).index) :
+    ∃ v p, deriveValues ps old (merged add old r) = some v ∧
       0 ≤ v.index ∧ v.index < ps.length ∧
-      v.index = max 0 (min (merged old r).index ((ps.length : Int) - 1)) ∧
+      v.index = max 0 (min (merged add old r).index ((ps.length : Int) - 1)) ∧
       ps[v.index.toNat]? = some p ∧ v.preset = p.name ∧ v.pct = p.pct ∧
-      v.direction = (merged old r).direction := by
+      v.direction = (merged add old r).direction := by
   have hlen : 0 < ps.length := by
     cases ps with
     | nil => exact absurd rfl hne
     | cons _ _ => simp
-  have hb := clamp_bounds ps.length hlen (merged old r).index
+  have hb := clamp_bounds ps.length hlen (merged add old r).index
   simp only at hb
   unfold deriveValues
   rw [if_neg (by simpa using h1), if_pos h2]
-  generalize hnew : merged old r = new at hb ⊢
+  generalize hnew : merged add old r = new at hb ⊢
   dsimp only
   have hce := clamp_eq ps.length hlen new.index
   generalize hidx : (if (if new.index ≥ ↑ps.length then (ps.length : Int) - 1 else new.index) < 0 then 0
@@ -96,15 +103,15 @@ theorem C20_fan_index_clamped (ps : List Preset) (hne : ps ≠ []) (old : Fan) (
 
 /-- **Precedence, percentage last**: preset and index unchanged and percentage changed ⇒ the first
 preset with exactly that percentage is selected, or none (preset "", index −1). -/
-theorem C20_fan_percentage (ps : List Preset) (old : Fan) (r : Request)
-    (h1 : old.preset = (merged old r).preset) (h2 : old.index = (merged old r).index)
-    (h3 : old.pct ≠ (merged old r).pct) :
-    ∃ v, deriveValues ps old (merged old r) = some v ∧ v.pct = (merged old r).pct ∧
-      ((∃ (i : Nat) (p : Preset), ps[i]? = some p ∧ p.pct = v.pct ∧ v.index = (i : Int) ∧ v.preset = p.name) ∨
+theorem C20_fan_percentage (ps : List (Preset α)) (old : Fan α) (r : Request α)
+    (h1 : old.preset = (merged add old r).preset) (h2 : old.index = (merged add old r).index)
+    (h3 : old.pct ≠ (merged add old r).pct) :
+    ∃ v, deriveValues ps old (merged add old r) = some v ∧ v.pct = (merged add old r).pct ∧
+      ((∃ (i : Nat) (p : Preset α), ps[i]? = some p ∧ p.pct = v.pct ∧ v.index = (i : Int) ∧ v.preset = p.name) ∨
        (v.preset = "" ∧ v.index = -1 ∧ ∀ p ∈ ps, p.pct ≠ v.pct)) := by
   unfold deriveValues
   rw [if_neg (by simpa using h1), if_neg (by simpa using h2), if_pos h3]
-  cases hf : findIdx (fun p => p.pct == (merged old r).pct) ps with
+  cases hf : findIdx (fun p => p.pct == (merged add old r).pct) ps with
   | some i =>
     obtain ⟨x, hx, hp⟩ := findIdx_some hf
     refine ⟨_, rfl, rfl, Or.inl ⟨i, x, hx, by simpa using hp, rfl, by simp [hx]⟩⟩
@@ -113,9 +120,62 @@ theorem C20_fan_percentage (ps : List Preset) (old : Fan) (r : Request)
     have := findIdx_none hf p hp
     simpa using this
 
+/-- **Relative index steps never wrap** (every int32 step `k`, including ±2³¹): on a fan at a named
+preset, a relative `preset_index` write under its mask moves to the index `max 0 (min (index + k) (len − 1))`
+of the TRUE integer sum — a huge step lands on the last/first preset — and preset and percentage
+are those of that preset. (Before the fix the int32 sum wrapped to the other end.) -/
+theorem C20_fan_relative_index (ps : List (Preset α)) (hwf : WF ps) (hlen : (ps.length : Int) ≤ 2147483647)
+    (old : Fan α) (hc : Consistent ps old) (hp : old.preset ≠ "") (k : Int) (pct : α) (dir : Int) :
+    ∃ v p, update add ps old ⟨⟨pct, "", k, dir⟩, true, some [.index]⟩ = .ok v ∧
+      v.index = max 0 (min (old.index + k) ((ps.length : Int) - 1)) ∧
+      ps[v.index.toNat]? = some p ∧ v.preset = p.name ∧ v.pct = p.pct ∧ v.direction = old.direction := by
+  obtain ⟨h0, p0, hp0, hn0, hpc0⟩ := hc.1 hp
+  have hlt : old.index.toNat < ps.length := by
+    rcases List.getElem?_eq_some_iff.mp hp0 with ⟨h, _⟩; exact h
+  have hm : merged add old ⟨⟨pct, "", k, dir⟩, true, some [.index]⟩ =
+      ⟨old.pct, old.preset, sat32 (k + old.index), old.direction⟩ := by
+    simp [merged, merge]
+  have hupd : update add ps old ⟨⟨pct, "", k, dir⟩, true, some [.index]⟩ =
+      match deriveValues ps old (merged add old ⟨⟨pct, "", k, dir⟩, true, some [.index]⟩) with
+      | some v => .ok v
+      | none => .panic := by
+    unfold update
+    rw [if_neg (by simp)]
+    generalize deriveValues ps old _ = d
+    cases d <;> rfl
+  rw [hupd]
+  by_cases h2 : old.index ≠ (merged add old ⟨⟨pct, "", k, dir⟩, true, some [.index]⟩).index
+  · obtain ⟨v, p, hd, _, _, hidx, hget, hpre, hpct, hdir⟩ :=
+      C20_fan_index_clamped add ps hwf.1 old _ (by rw [hm]) h2
+    refine ⟨v, p, by rw [hd], ?_, hget, hpre, hpct, by rw [hdir, hm]⟩
+    rw [hidx, hm]
+    simp only [sat32, Int.max_def, Int.min_def]
+    repeat' split
+    all_goals omega
+  · have h2' : old.index = sat32 (k + old.index) := by
+      have : old.index = (merged add old ⟨⟨pct, "", k, dir⟩, true, some [.index]⟩).index := by
+        apply Classical.byContradiction; intro h; exact h2 h
+      rw [hm] at this; exact this
+    have hd : deriveValues ps old (merged add old ⟨⟨pct, "", k, dir⟩, true, some [.index]⟩) =
+        some (merged add old ⟨⟨pct, "", k, dir⟩, true, some [.index]⟩) := by
+      rw [hm]
+      unfold deriveValues
+      simp [← h2']
+    rw [hd, hm]
+    refine ⟨_, p0, rfl, ?_, ?_, hn0.symm, hpc0.symm, rfl⟩
+    · show sat32 (k + old.index) = _
+      rw [← h2']
+      have : (old.index.toNat : Int) = old.index := Int.toNat_of_nonneg h0
+      revert h2'
+      simp only [sat32, Int.max_def, Int.min_def]
+      repeat' split
+      all_goals omega
+    · show ps[(sat32 (k + old.index)).toNat]? = some p0
+      rw [← h2']; exact hp0
+
 /-- **No panic with a non-empty preset list**, for every state and request. -/
-theorem C20_fan_no_panic (ps : List Preset) (hne : ps ≠ []) (old : Fan) (r : Request) :
-    update ps old r ≠ .panic := by
+theorem C20_fan_no_panic (ps : List (Preset α)) (hne : ps ≠ []) (old : Fan α) (r : Request α) :
+    update add ps old r ≠ .panic := by
   unfold update
   split
   · simp
@@ -123,9 +183,9 @@ theorem C20_fan_no_panic (ps : List Preset) (hne : ps ≠ []) (old : Fan) (r : R
       cases ps with
       | nil => exact absurd rfl hne
       | cons _ _ => simp
-    have hb := clamp_bounds ps.length hlen (merged old r).index
+    have hb := clamp_bounds ps.length hlen (merged add old r).index
     simp only at hb
-    cases hd : deriveValues ps old (merged old r) with
+    cases hd : deriveValues ps old (merged add old r) with
     | some v => simp
     | none =>
       exfalso
@@ -139,6 +199,6 @@ theorem C20_fan_no_panic (ps : List Preset) (hne : ps ≠ []) (old : Fan) (r : R
           · simp at hd
 
 /-- the panic exists without that hypothesis: an index write on a model configured with no presets -/
-example : update [] ⟨0, "", -1, 0⟩ ⟨⟨0, "", 2, 0⟩, false, none⟩ = .panic := by decide +kernel
+example : update radd ([] : List (Preset Rat)) ⟨0, "", -1, 0⟩ ⟨⟨0, "", 2, 0⟩, false, none⟩ = .panic := by decide +kernel
 
 end ScVerif.C20.FanSpeed
